@@ -109,6 +109,14 @@ func c12Monitor(st *engine.Step) {
 			}
 		}
 		if tag.Kind == "sms_validate" {
+			for i := len(pre.Truth.SMSLog) - 1; i >= 0; i-- {
+				if m := pre.Truth.SMSLog[i]; m.Code == tag.Secret && m.Browser == o.Req.Browser {
+					if m.For != x {
+						st.Report(engine.Violation{Rule: "C12/sms-code-of-another-account", Detail: fmt.Sprintf("the login of %s was completed with an SMS code that was sent for %s's login (to %s)", x, m.For, m.Number)})
+					}
+					break
+				}
+			}
 			if pre.Truth.Flags["c12:sms-used:"+tag.Secret] != "" {
 				st.Report(engine.Violation{Rule: "C12/sms-code-accepted-twice", Detail: "an SMS login code completed a second login"})
 			}
@@ -344,6 +352,20 @@ func c12Scenarios(tier string) []engine.Scenario {
 		Model: c12Model, Monitor: c12Monitor, Cover: c12Cover,
 		Need: []string{"accepted:sms_validate:code", "accepted:sms_validate:rc", "refused:sms_validate:rc:used"},
 	})
+	// two accounts registered with the same phone number: a code belongs to the login it was sent for, not to the number
+	{
+		shared := out[len(out)-1]
+		shared.Name = "sms-shared-number"
+		shared.Depth = depth - 1
+		shared.Init = func(s *world.Stack) *world.World {
+			w := world.NewWorld("B1", "B2")
+			flows.SeedAcct(s, w, flows.Acct{PID: U1, Password: P1, SMSNumber: N1, RecoveryCodes: []string{"aaaaa-11111"}})
+			flows.SeedAcct(s, w, flows.Acct{PID: U2, Password: P2, SMSNumber: N1, RecoveryCodes: []string{"ddddd-44444"}})
+			return w
+		}
+		shared.Need = []string{"accepted:sms_validate:code"}
+		out = append(out, shared)
+	}
 	return out
 }
 
